@@ -446,6 +446,35 @@ theorem retry_first {D : Decoder} {test : Ty → Nat → Bytes → Bool} (hD : I
         simp only [isEnd_some, hm2, h2]
         simp
 
+/-- a pass that starts after the end of the contents decodes nothing -/
+theorem gPass_ood (D : Decoder) (ms : Members) :
+    ∀ (i fuel : Nat) (st : MSt), st.ood = true →
+      gPass D ms i fuel (List.replicate ms.length none) st = .ok (List.replicate ms.length none, st) := by
+  induction ms using Members.ind with
+  | nil => intro i fuel st _; rw [gPass]; rfl
+  | cons name p t rest ih =>
+    intro i fuel st h
+    simp only [Members.length]
+    rw [gPass_cons_none _ _ _ _ _ _ _ _ _ (replicate_headD _), replicate_tail]
+    simp only [h, if_true, ih (i + 1) fuel st h, List.replicate_succ]
+
+/-- definite form: skipping the additions loop when the root loop reached the end of the contents
+(`while not out_of_data:`, /repo commit 300e5ac) gives what running it gave -/
+theorem skip_or_retry (D : Decoder) (ms : Members) (i fuel : Nat) (bs : Bytes) (k n : Nat) :
+    (if (n == 0) = true then
+        (.ok (List.replicate ms.length none, (⟨bs, k, some n⟩ : Cur), true) : DecM (List (Option Val) × Cur × Bool))
+      else retry (gPass D ms i fuel) (ms.length + 1) (List.replicate ms.length none) ⟨bs, k, some n⟩)
+      = retry (gPass D ms i fuel) (ms.length + 1) (List.replicate ms.length none) ⟨bs, k, some n⟩ := by
+  by_cases h : (n == 0) = true
+  · rw [if_pos h]
+    have : n = 0 := by simpa using h
+    subst this
+    rw [retry]
+    simp only [isEnd_some]
+    rw [gPass_ood D ms i fuel _ rfl]
+    simp
+  · rw [if_neg h]
+
 theorem members_nil_of_length {ms : Members} (h : ms.length = 0) : ms = .nil := by
   cases ms with
   | nil => rfl
@@ -501,6 +530,7 @@ theorem rt_sequence {D : Decoder} {test : Ty → Nat → Bytes → Bool} (hD : I
         simp only [List.length_nil, Nat.add_zero, List.append_nil] at hlen ⊢
         simp [finishMembers, canonMembersV, Members.length, hlen]
       · simp only [hal, if_false]
+        rw [skip_or_retry]
         have h2 := retry_first hD fs adds iha hwa howf.2 hd.2 hoka root.length fuel ba rest 0
           ((mkTag 16 true tg).length + (Ber.encLength (br ++ ba).length).length + br.length) hba (by omega)
           (fun h => absurd rfl h)
